@@ -559,7 +559,34 @@ def check_summarize(prog, rep):
             'summarize_terrain must forward to slope, curvature and aspect')
 
 
+def check_dask_borders(prog, rep):
+    """NaN borders on the dask path: the halo is NaN, which needs floating data before map_overlap pads it."""
+    from ..dasksites import NAN_TEXTS, sites_in
+    from ..sharedrules import FloatProv
+    fpv = FloatProv(prog)
+    for modname in ('slope', 'aspect', 'curvature', 'hillshade'):
+        m = prog.module(modname)
+        pub = m.funcs.get(modname)
+        paths = [p for p in backend_paths(prog, pub) if p.backend == 'dask']
+        if not paths or paths[0].func() is None:
+            raise AnalysisIncomplete('%s: dask path not found' % modname)
+        f = paths[0].func()
+        sites = [s for s in sites_in(prog, f) if s.kind == 'map_overlap']
+        if not sites:
+            rep.add('L8-dask', f, '%s[dask]' % modname, 'map_overlap site', f.node.lineno, False,
+                    'a 3x3 operator needs a one-cell halo on the dask path')
+        for s in sites:
+            b = s.kwargs.get('boundary')
+            bt = norm(b) if b is not None else None
+            okb = bt in NAN_TEXTS or bt in ("'none'", '"none"')
+            okf = bt not in NAN_TEXTS or fpv.is_float(f, s.arrays[0])
+            rep.add('L8-dask', f, '%s[dask]' % modname, norm(s.call)[:120], s.call.lineno, okb and okf,
+                    'border cells must be NaN on the dask path too: the halo must be NaN (or none) and the array must '
+                    'already be floating when map_overlap pads it (boundary=%s, float before padding: %s)' % (bt, okf))
+
+
 def check(prog, rep):
+    check_dask_borders(prog, rep)
     ks = check_slope(prog, rep)
     ka = check_aspect(prog, rep)
     kc = check_curvature(prog, rep)
@@ -574,6 +601,7 @@ def check(prog, rep):
     check_hillshade(prog, rep)
     check_resolution(prog, rep)
     check_summarize(prog, rep)
+    rep.floor('L8-dask', 4)
     rep.floor('L1-loops', 3)
     rep.floor('L1-footprint', 3)
     rep.floor('L-formula', 4)
